@@ -206,9 +206,14 @@ func execSvcCase(tm *kit.TM, ops []string) (out []string) {
 	return out
 }
 
-// genSvcCase keeps every topic single-entry: t0,t1 are collected directly and never published to; each p_i
-// has at most one publishing handler pointing at it at any time, and edges only go forward.
-func genSvcCase(r *kit.Rand, size int) []string {
+// genSvcCase, single-entry mode (multi == false): t0,t1 are collected directly and never published to; each p_i
+// has at most one publishing handler pointing at it at any time, and edges only go forward. There the delivery is
+// deterministic and the driver compares the model with the implementation.
+// Multi-entry mode (multi == true): a topic may have SEVERAL ways in - several publishing handlers pointing at it
+// (diamonds t0->p0->p2, t0->p1->p2) and/or direct collection on a topic that is also published to. What the
+// recorders see then depends on how the handler goroutines interleave; the driver judges the observed logs with the
+// schedule-quantified specification (Kap/Spec/C09Async.lean). Edges still only go forward.
+func genSvcCase(r *kit.Rand, size int, multi bool) []string {
 	var ops []string
 	type sp struct {
 		topic, hid string
@@ -227,7 +232,7 @@ func genSvcCase(r *kit.Rand, size int) []string {
 	pickTargets := func(from string) []string {
 		var tg []string
 		for _, c := range svcTopics[2:] {
-			if idx(c) > idx(from) && !incoming[c] && r.Chance(1, 2) {
+			if idx(c) > idx(from) && (multi || !incoming[c]) && r.Chance(1, 2) {
 				tg = append(tg, c)
 			}
 		}
@@ -239,6 +244,21 @@ func genSvcCase(r *kit.Rand, size int) []string {
 		}
 		return strings.Join(tg, ",")
 	}
+	pickMatch := func() int {
+		m := r.Intn(len(matchTable))
+		if multi && (m == 3 || m == 6 || m == 8) && !r.Chance(1, 6) {
+			// expressions over changed() make the SET of delivered events schedule dependent on a multi-entry topic
+			// (the driver can then only bound it): keep them rare there
+			m = []int{0, 1, 2, 4, 5, 7}[r.Intn(6)]
+		}
+		return m
+	}
+	collectTopic := func() string {
+		if multi && r.Chance(1, 3) {
+			return svcTopics[2+r.Intn(3)] // direct collection on a topic that may also be published to
+		}
+		return svcTopics[r.Intn(2)]
+	}
 	ids := []string{"a", "b", "c"}
 	tm := int64(5000)
 	nrec := 0
@@ -249,10 +269,40 @@ func genSvcCase(r *kit.Rand, size int) []string {
 		}
 	}
 	hn := 0
+	if multi {
+		// branch-directed prelude: a diamond src -> p0 -> p2, src -> p1 -> p2 (one handler with two targets, or two
+		// handlers), sometimes with a third way in to p2 straight from the source, and a recorder at the join
+		src := svcTopics[r.Intn(2)]
+		if r.Chance(1, 2) {
+			ops = append(ops, fmt.Sprintf("sreg %s h%d %d p0,p1", src, hn, pickMatch()))
+			live = append(live, sp{src, fmt.Sprintf("h%d", hn), []string{"p0", "p1"}})
+			hn++
+		} else {
+			for _, c := range []string{"p0", "p1"} {
+				ops = append(ops, fmt.Sprintf("sreg %s h%d %d %s", src, hn, pickMatch(), c))
+				live = append(live, sp{src, fmt.Sprintf("h%d", hn), []string{c}})
+				hn++
+			}
+		}
+		for _, c := range []string{"p0", "p1"} {
+			if r.Chance(5, 6) {
+				ops = append(ops, fmt.Sprintf("sreg %s h%d %d p2", c, hn, pickMatch()))
+				live = append(live, sp{c, fmt.Sprintf("h%d", hn), []string{"p2"}})
+				hn++
+			}
+		}
+		if r.Chance(1, 3) {
+			ops = append(ops, fmt.Sprintf("sreg %s h%d %d p2", src, hn, pickMatch()))
+			live = append(live, sp{src, fmt.Sprintf("h%d", hn), []string{"p2"}})
+			hn++
+		}
+		incoming["p0"], incoming["p1"], incoming["p2"] = true, true, true
+		ops = append(ops, fmt.Sprintf("srec p2 r%d", r.Intn(2)))
+	}
 	// branch-directed prelude: in half of the cases start with a chain source -> p.. of depth up to 3 (the generic
 	// loop below rarely builds chains deeper than one hop), so that the chain semantics is exercised at depth >= 2:
 	// match at every hop on the event AS SEEN there, previous level carried over on a first arrival.
-	if r.Chance(1, 2) {
+	if !multi && r.Chance(1, 2) {
 		cur := svcTopics[r.Intn(2)]
 		for _, nxt := range svcTopics[2:] {
 			if !r.Chance(3, 4) {
@@ -288,7 +338,7 @@ func genSvcCase(r *kit.Rand, size int) []string {
 			if len(tags) > 0 {
 				ts = strings.Join(tags, ",")
 			}
-			ops = append(ops, fmt.Sprintf("scollect %s %s %d %d %s", svcTopics[r.Intn(2)], kit.Pick(r, ids), r.Intn(4), tm, ts))
+			ops = append(ops, fmt.Sprintf("scollect %s %s %d %d %s", collectTopic(), kit.Pick(r, ids), r.Intn(4), tm, ts))
 		case k < 75:
 			from := svcTopics[r.Intn(4)]
 			tg := pickTargets(from)
@@ -303,7 +353,7 @@ func genSvcCase(r *kit.Rand, size int) []string {
 				incoming[c] = true
 			}
 			live = append(live, sp{from, hid, tg})
-			ops = append(ops, fmt.Sprintf("sreg %s %s %d %s", from, hid, r.Intn(len(matchTable)), tgStr(tg)))
+			ops = append(ops, fmt.Sprintf("sreg %s %s %d %s", from, hid, pickMatch(), tgStr(tg)))
 		case k < 85:
 			if len(live) == 0 {
 				continue
@@ -334,7 +384,7 @@ func genSvcCase(r *kit.Rand, size int) []string {
 				hn++
 			}
 			live[j] = sp{d.topic, nh, tg}
-			ops = append(ops, fmt.Sprintf("supd %s %s %s %d %s", d.topic, d.hid, nh, r.Intn(len(matchTable)), tgStr(tg)))
+			ops = append(ops, fmt.Sprintf("supd %s %s %s %d %s", d.topic, d.hid, nh, pickMatch(), tgStr(tg)))
 		default:
 			ops = append(ops, fmt.Sprintf("srec %s r%d", kit.Pick(r, svcTopics), r.Intn(2)))
 		}
